@@ -360,6 +360,45 @@ def replay_special(a):
     return None
 
 
+def torsion_case(which):
+    """FastAggregateVerify on two keys outside the subgroup whose cofactor components cancel
+    (a*G + T, b*G - T) with the honest signature of a + b: every key must be valid on its own"""
+    T = BL.torsion_points("E1")[which]
+    G = params.bls_g1()
+    a_, b_ = 1234567, 7654321
+    pks = [MB.g1_bytes(BL.E1.add(BL.E1.mul(G, a_), T)), MB.g1_bytes(BL.E1.add(BL.E1.mul(G, b_), BL.E1.neg(T)))]
+    sig = MB.sign("pop", (a_ + b_) % R_, MSG[0])
+    C = BL.suite_cls("pop")
+    out = [("FastAggregateVerify", False, BL.verdict(C.FastAggregateVerify, pks, MSG[0], sig))]
+    # the same unsafe key three times with T of order 3: components cancel as well
+    if which == "T_3":
+        pk3 = MB.g1_bytes(BL.E1.add(BL.E1.mul(G, a_), T))
+        sig3 = MB.sign("pop", (3 * a_) % R_, MSG[0])
+        out.append(("FastAggregateVerify x3", False, BL.verdict(C.FastAggregateVerify, [pk3, pk3, pk3], MSG[0], sig3)))
+    return out
+
+
+def task_torsion(a, env):
+    r = R("FastAggregateVerify:cancelling-non-subgroup-keys")
+    for which in ("T_3", "T_11", "cofactor-component"):
+        for lbl, exp, got in torsion_case(which):
+            r.ev += 1
+            r.transitions += 1
+            r.dk.add((which, lbl))
+            if exp != got:
+                r.viol("C03:FastAggregateVerify:pop:accepts:cancelling-torsion-keys", ME + ":replay_torsion", {"which": which}, exp, got, note=lbl)
+    r.states = 1
+    r.sample({"keys": "a*G + T and b*G - T (T of order 3, 11, or a full cofactor component)", "signature": "honest signature of a + b"})
+    return r
+
+
+def replay_torsion(a):
+    for lbl, exp, got in torsion_case(a["which"]):
+        if exp != got:
+            return {"call": lbl, "expected": exp, "observed": got}
+    return None
+
+
 def task_refuse(a, env):
     r = R("Aggregate:refusals")
     for suite in BL.SUITES:
@@ -575,6 +614,7 @@ def run(ctx):
                                      "lo": lo, "step": step, "sample": lo == 0 and st is fstates[1]}))
     nst += len(fstates)
     tasks.append(("refuse", {}))
+    tasks.append(("torsion", {}))
     for i in range(0, 8 if q else 16, 2):
         tasks.append(("special", {"idx": [i, i + 1]}))
     sp = [(x, y) for x in BL.SUITES for y in BL.SUITES if x != y]
